@@ -203,6 +203,9 @@ class SR:
         return (oo * self.log()).exp()
 
     def __rpow__(self, o):
+        if isinstance(o, (float, np.floating)) and math.isnan(float(o)):
+            # nan ** 0 is 1 in IEEE/numpy, nan otherwise
+            return 1.0 if ST.ex.decide(ST.path, self.e == 0) else float('nan')
         return (self * SR(term(o)).log()).exp()
 
     # -- comparisons -----------------------------------------------------
